@@ -14,6 +14,11 @@ CLAIMED = {
    design="4 (C01)",
    note="Trusted: strconv (incl. floats), net/url escaping, ServeMux, protojson/proto and the custom codecs of C04-C08. Per-RPC emitted client text (URL assembly, query encoding) is verified on the extraction schema and exercised by the family only (bounded over schemas).",
    technique="contract-based deductive verification: agreement lemmas over verified contracts of the deciding generator functions and of the extracted emitted templates (event/at-call tables), z3/cvc5 race; bounded client-server end-to-end family as replayer"),
+ "C13": dict(
+   text="Partly deductive, mostly bounded, and said so: what a contract can state is proved for all definitions - the import block of the emitted Go client agrees with what the emitted text uses (net/url is imported iff some RPC's URL code mentions it, bytes iff some RPC sends a body; deciders, import writer and per-RPC emitters carry contracts with text-event obligations, linked by a lemma to the per-RPC configuration), and the duplicated codec emitters of the two Go plugins are congruent (C14 rule), so one plugin's codec file compiles iff the other's does. Well-typedness of emitted Go in general is not expressible here; it is decided on a bounded family that really builds and vets the packages (62 definitions x {go-http, go-client, both}, run in the quick tier too). The family found ten genuine defects: one repaired (fix: %%w in emitted Errorf, a go vet failure), nine recorded as known findings by family member.",
+   design="4 (C13)",
+   note="TypeScript output is not checked (no TypeScript toolchain installed). Trusted: protoc-gen-go output, go build/vet as oracle.",
+   technique="contract-based deductive verification of the import/usage agreement (functional contracts, text-event obligations, lemma) + structural congruence rule; bounded build-and-vet family of emitted packages as replayer and stand-in"),
  "C16": dict(
    text="Deductive where a contract can state it: every function on a static call cycle of the generator packages (41 today) carries a `decreases` measure whose VC is discharged at every recursive call (nesting depth of descriptors, or the number of full names not yet in a visited/on-stack set, with the set-growth invariants proved through the loops); a structural rule refuses any recursive function without a measure and any loop that is not a range over a finite collection or a simple counting loop; a zero-annotation bounds sweep proves every index, slice, type-assertion and explicit-panic site of all 550 functions of the generator packages and the five plugin mains unreachable-or-in-range for all arguments. Two genuine defects found this way were repaired with fix: commits (unbounded mock recursion on self-containing response types, panic-on-error in the OpenAPI main). Crash-freedom of whole plugin runs is additionally sampled by a bounded family (descriptor shapes x plugins x parameters, thorough tier) that also serves as the replayer.",
    design="4 (C16)",
